@@ -132,6 +132,12 @@ fn wide_pool() -> Vec<Op> {
         Op::del(1, ts_min(12, 0, 1)),
         Op::del(65536, ts_min(13, 0, 1)),
         Op::ins(257, ts_min(14, 0, 1)),
+        // 9..=12: one id rewritten and deleted at stamps whose seconds have a different number
+        // of decimal digits (SQLite stores the stamp as text; added after C07-h)
+        Op::ins(7, HLCTimestamp::new(std::time::Duration::from_secs(99_999_990), 0, 1)),
+        Op::ins(7, HLCTimestamp::new(std::time::Duration::from_secs(100_000_020), 0, 1)),
+        Op::del(7, HLCTimestamp::new(std::time::Duration::from_secs(100_000_050), 0, 1)),
+        Op::ins(8, HLCTimestamp::new(std::time::Duration::from_secs(99_999_995), 0, 1)),
     ]
 }
 
@@ -691,6 +697,13 @@ pub fn run(tier: Tier) -> i32 {
                         work.push((backend, h.clone(), Some((next, 1))));
                     }
                 }
+            }
+        }
+        for backend in ["sqlite-file", "lmdb"] {
+            // (these stamps lie 99 million seconds after the others: on their own keyspace
+            // history so that the forgiveness window of node 1 is not involved)
+            for h in [vec![set(9), set(10)], vec![set(9), del(11)], vec![set(9), set(12), set(10), del(11)], vec![set(12), set(9), set(10)]] {
+                work.push((backend, h, None));
             }
         }
         let idx: Vec<usize> = (0..work.len()).collect();
